@@ -336,6 +336,7 @@ def handlerShape (fn : String) : Option Handler :=
           | some _ => if o = zero3Str.splitOn " " then "pass" else "fail volumeless-or-unbounded-shape-not-zero"
           | none => "skip bad-args"
         | _ => "skip bad-args" }
+  | "shape3_capsule" => handler3 "from_capsule3"
   | "shape2" => some {
       model := fun a => match a with
         | d :: k :: rest =>
